@@ -9,9 +9,9 @@
 #define KEY   "key-c07-secret"
 
 enum { B_HONEST = 0, B_FOREIGN_ID, B_STALE_ID, B_OTHER_HASH, B_OTHER_LEVEL, B_STATUS, B_ERROR_PDU, B_TRUNCATED, B_BAD_MAC, B_NO_MAC,
-       B_OTHER_VERSION, B_INCONSISTENT, B_EMPTY, B_NO_CHAINS, B_OTHER_KEY, B_NO_HEADER, B_GARBAGE, B_NBEH };
+       B_OTHER_VERSION, B_INCONSISTENT, B_EMPTY, B_NO_CHAINS, B_OTHER_KEY, B_NO_HEADER, B_GARBAGE, B_REORDERED, B_ID_HIGH32, B_ID_HIGHFF, B_NBEH };
 static const char *BNAME[B_NBEH] = {"honest", "foreign-id", "stale-id", "other-hash", "other-level", "status", "error-pdu", "truncated", "bad-mac", "no-mac",
-                                    "other-version", "inconsistent", "empty", "no-chains", "other-key", "no-header", "garbage"};
+                                    "other-version", "inconsistent", "empty", "no-chains", "other-key", "no-header", "garbage", "chains-top-first", "id-plus-2^32", "id-high-half-set"};
 static const uint64_t STATUSES[] = {0x0101, 0x0102, 0x0103, 0x0104, 0x0105, 0x0106, 0x0107, 0x0200, 0x0300, 0x0301, 0x7777};
 #define NSTATUS ((int)(sizeof STATUSES / sizeof *STATUSES))
 /* internally inconsistent replies: ways to break an honest body */
@@ -39,6 +39,25 @@ static void break_body(rsig *s, int sub) {
 	}
 }
 
+/* the same elements, aggregation chains listed highest first (the order of the elements inside a signature is free) */
+static void chains_top_first(vbuf *body) {
+	vbuf chains[8], rest, out;
+	size_t off = 0;
+	int n = 0, i;
+	vb_init(&rest); vb_init(&out);
+	while (off < body->n) {
+		rtlv t;
+		if (rtlv_read(body->p + off, body->n - off, &t) != 0) vf_harness_error("chains_top_first");
+		if (t.tag == 0x0801 && n < 8) { vb_init(&chains[n]); vb_put(&chains[n], body->p + off, t.hdr + t.len); n++; }
+		else vb_put(&rest, body->p + off, t.hdr + t.len);
+		off += t.hdr + t.len;
+	}
+	for (i = n - 1; i >= 0; i--) { vb_putvb(&out, &chains[i]); vb_free(&chains[i]); }
+	vb_putvb(&out, &rest);
+	vb_reset(body); vb_putvb(body, &out);
+	vb_free(&rest); vb_free(&out);
+}
+
 static void handler(const unsigned char *req, size_t n, vbuf *resp, void *user) {
 	rp_req r;
 	rp_env e;
@@ -62,6 +81,8 @@ static void handler(const unsigned char *req, size_t n, vbuf *resp, void *user) 
 	vb_init(&body); vb_init(&payload);
 	switch (S.behaviour) {
 		case B_FOREIGN_ID: id += 1000; break;
+		case B_ID_HIGH32: id += 1ULL << 32; break;                 /* same low half, other id */
+		case B_ID_HIGHFF: id ^= 0xffffffff00000000ULL; break;
 		case B_STALE_ID: if (S.have_prev) id = S.prev_id; break;
 		case B_OTHER_HASH: hash[hl - 1] ^= 1; break;
 		case B_OTHER_LEVEL: if (level > 0) level -= 1; break;
@@ -91,6 +112,7 @@ static void handler(const unsigned char *req, size_t n, vbuf *resp, void *user) 
 		sig.ch[0].links[0].level_corr -= level;
 		if (S.behaviour != B_NO_CHAINS) {
 			rp_sig_body(&sig, &body);
+			if (S.behaviour == B_REORDERED) chains_top_first(&body);
 			/* what the client reconstructs from this body */
 			S.client_view = sig;
 			S.client_view.ch[0].links[0].level_corr += (r.has_level ? r.level : 0);
@@ -235,7 +257,7 @@ static void one_case(int iface, int transport, int version, int doc_alg, uint64_
 	}
 	if (getenv("VF_DEBUG")) KSI_ERR_statusDump(ctx, stderr);
 	check_request_seen(doc_alg, seed, (iface == 1) ? 0 : level);
-	if (behaviour == B_OTHER_LEVEL || behaviour == B_INCONSISTENT || behaviour == B_OTHER_HASH || behaviour == B_HONEST) {
+	if (behaviour == B_OTHER_LEVEL || behaviour == B_INCONSISTENT || behaviour == B_OTHER_HASH || behaviour == B_HONEST || behaviour == B_REORDERED) {
 		/* whether such a body is acceptable is decided by the reference evaluator on what the client
 		 * reconstructs (e.g. without a calendar chain an altered sibling or level is not observable) */
 		expect_ok = 0;
